@@ -53,6 +53,38 @@ class Effect:
         return f"{self.kind} {what} at {self.where}{v}"
 
 
+def alpha_rename(fn_node):
+    """Copy of the function AST in which every comprehension's bound names are
+    renamed apart (Python 3 comprehensions have their own scope)."""
+    import copy
+
+    node = copy.deepcopy(fn_node)
+    counter = [0]
+
+    def rename(comp):
+        bound = {}
+        for gen in comp.generators:
+            for n in ast.walk(gen.target):
+                if isinstance(n, ast.Name):
+                    if n.id not in bound:
+                        counter[0] += 1
+                        bound[n.id] = f"{n.id}@c{counter[0]}"
+        if not bound:
+            return
+        first_iter = comp.generators[0].iter  # evaluated in the enclosing scope
+        for n in ast.walk(comp):
+            if isinstance(n, ast.Name) and n.id in bound:
+                if any(n is x for x in ast.walk(first_iter)):
+                    continue
+                n.id = bound[n.id]
+
+    # inner comprehensions first
+    comps = [n for n in ast.walk(node) if isinstance(n, (ast.ListComp, ast.SetComp, ast.DictComp, ast.GeneratorExp))]
+    for c in reversed(comps):
+        rename(c)
+    return node
+
+
 def elem(tag):
     if tag[0] == "box":
         return tag[1]
@@ -79,6 +111,12 @@ class EffectAnalysis:
         self.unresolved: list[str] = []
         self.dynamic_calls = dynamic_calls or (lambda fn, call: None)
         self._by_name: dict[str, list[FuncInfo]] | None = None
+        self._renamed: dict = {}
+
+    def body(self, fn: FuncInfo):
+        if fn not in self._renamed:
+            self._renamed[fn] = alpha_rename(fn.node)
+        return self._renamed[fn]
 
     # ------------------------------------------------------------------ env
     def env(self, fn: FuncInfo, K: ClassInfo | None):
@@ -101,7 +139,7 @@ class EffectAnalysis:
             else:
                 env[p_] = {("param", p_, 0)}
         globals_decl = set()
-        for n in ast.walk(fn.node):
+        for n in ast.walk(self.body(fn)):
             if isinstance(n, ast.Global):
                 globals_decl |= set(n.names)
         changed = True
@@ -109,7 +147,7 @@ class EffectAnalysis:
         while changed and rounds < 10:
             changed = False
             rounds += 1
-            for n in ast.walk(fn.node):
+            for n in ast.walk(self.body(fn)):
                 binds = []
                 if isinstance(n, ast.Assign):
                     v = self.eval(n.value, env, fn, K)
@@ -188,6 +226,9 @@ class EffectAnalysis:
             if isinstance(f, ast.Attribute):
                 if f.attr in SHALLOW and not e.args:
                     return {("copy", t) for t in self.eval(f.value, env, fn, K)}
+                if f.attr in ("values", "items", "keys"):
+                    # a view whose iteration yields the elements (for k, v in d.items(): v is an element of d)
+                    return {("box", elem(t)) for t in self.eval(f.value, env, fn, K)}
                 if f.attr in ELEMENT_METHODS:
                     out = {elem(t) for t in self.eval(f.value, env, fn, K)}
                     if f.attr in ("get", "pop", "setdefault") and len(e.args) > 1:
@@ -226,6 +267,10 @@ class EffectAnalysis:
                 if x is not None:
                     out |= {("box", t) for t in self.eval(x, env, fn, K) if t[0] != "fresh"}
             return out or FRESH
+        if isinstance(e, (ast.ListComp, ast.SetComp, ast.GeneratorExp)):
+            return {("box", t) for t in self.eval(e.elt, env, fn, K) if t[0] != "fresh"} or FRESH
+        if isinstance(e, ast.DictComp):
+            return {("box", t) for t in self.eval(e.value, env, fn, K) if t[0] != "fresh"} or FRESH
         if isinstance(e, ast.IfExp):
             return self.eval(e.body, env, fn, K) | self.eval(e.orelse, env, fn, K)
         if isinstance(e, ast.BoolOp):
@@ -332,7 +377,7 @@ class EffectAnalysis:
                 elif t[0] == "self" and k == "store":
                     effects.add(mk(k, t, n))
 
-        for n in ast.walk(fn.node):
+        for n in ast.walk(self.body(fn)):
             if isinstance(n, (ast.Assign, ast.AugAssign, ast.AnnAssign, ast.Delete)):
                 if isinstance(n, ast.Assign):
                     targets = n.targets
